@@ -9,6 +9,7 @@ package pubsub
 // covered by a DropRPC trace.
 
 import (
+	"fmt"
 	"testing"
 	"time"
 
@@ -40,14 +41,20 @@ func TestVerifC11Send(t *testing.T) {
 			rounds := c.Range(1, 4)
 			kinds := map[string]bool{}
 			multi, dropped := 0, 0
+			var descs []string
 			for r := 0; r < rounds; r++ {
 				orig := c11Gen(c, limit, c.Range(1, 25))
+				if orig.Size() == 0 {
+					// the generator may draw an RPC with nothing in it; sending that is not a split
+					continue
+				}
 				w0 := pup.WireLen()
 				t0 := nd.tr.Len()
 				urgent := c.Chance(0.3)
 				want := c11Content(orig)
 				origSize := orig.Size()
 				origDesc := c11Describe(orig)
+				descs = append(descs, fmt.Sprintf("limit=%d size=%d %s", limit, origSize, origDesc))
 				nd.Eval(func() { nd.gs.sendRPC(pup.ID(), &RPC{RPC: *orig}, urgent) })
 				vSettle(50 * time.Millisecond)
 				wire := pup.WireSince(w0)
@@ -136,7 +143,7 @@ func TestVerifC11Send(t *testing.T) {
 			ef := pup.emptyFrames
 			pup.mu.Unlock()
 			if ef > 0 {
-				c.Violatef(map[string]string{"kind": "empty_on_wire", "shape": "zero_length_frame"}, "%d zero-length frames reached the wire", ef)
+				c.Violatef(map[string]string{"kind": "empty_on_wire", "shape": "zero_length_frame"}, "%d zero-length frames reached the wire; rpcs sent: %v", ef, descs)
 			}
 			c.Count("dropped_oversized_elements", dropped)
 			ks := ""
